@@ -79,6 +79,7 @@ class H:
         path_timeout: Optional[int] = None,
         py_flags: Sequence[str] = (),
         hash_seeds: Sequence[str] = (),
+        replay_env: Optional[Dict[str, str]] = None,
     ) -> None:
         self.name = name
         self.fn = fn
@@ -96,6 +97,8 @@ class H:
         #: if given: the concrete grid is additionally run once per PYTHONHASHSEED value and the ``detail`` strings the
         #: harness returns (third tuple element) are compared byte-wise across the processes
         self.hash_seeds = list(hash_seeds)
+        #: a counterexample is replayed a second time with these environment variables set (C12: on a real asyncio loop)
+        self.replay_env = dict(replay_env or {})
 
     def bounds_text(self) -> List[str]:
         return [p.describe() for p in self.params] + ["pre: " + e for e in self.extra_pre]
